@@ -878,8 +878,14 @@ class Gen5:
             ts = [Fraction(rng.randrange(-8, 8), 2) for _ in range(n)]
             if rng.random() < 0.8:
                 ts.sort()
-            self.do(["dim_set_ticks", via, i, ["%d/%d" % (t.numerator, t.denominator) for t in ts]],
-                    "dim_set_ticks/" + dkind)
+            ticks = ["%d/%d" % (t.numerator, t.denominator) for t in ts]
+            tag = "dim_set_ticks/" + dkind
+            if tid is not None and dkind == "dim_range" and rng.random() < 0.5:
+                # the values the link yields right now, assigned as explicit ticks ("freezing" the ticks)
+                cur = (self.impl.run(["dim_read", ap, i]).get("ok") or {}).get("ticks")
+                if isinstance(cur, list) and cur:
+                    ticks, tag = list(cur), tag + "/current-values-of-the-link"
+            self.do(["dim_set_ticks", via, i, ticks], tag)
         elif r < 0.83:
             self.do(["dim_unlink", via, i], "dim_unlink/" + dkind)
         elif r < 0.9:
@@ -1152,6 +1158,7 @@ class Scene:
         self.held = {}        # (key, desc) -> handle obtained earlier through that path and kept alive
         self.lists = {}       # (block, owner kind, owner name, list) -> the entities it must hold, in order
         self.featdata = {}    # (block, tag kind, tag name, position) -> the entity its data link must lead to
+        self.nscratch = 0     # short-lived entities of the stale-handle / stray-copy steps
         self.frames = {}      # block -> expected columns of the data frame "df": {"cols": [(name, unit)], "rows": [[...]]}
         f = self.f
         sec = f.create_section("sec", "t")
@@ -1434,6 +1441,8 @@ class Scene:
         L = (bn, okind, oname, cname)
         lst = self.lists.setdefault(L, [])
         tk = self.pick_target(kind, bn, prefer=rng.choice(lst) if lst else None)
+        if lst and rng.random() < 0.1:
+            tk = rng.choice(lst)            # an entity the list already holds: it moves to the end
         if tk is None:
             return
         owner = self.primary((bn, okind, oname))
@@ -1491,6 +1500,8 @@ class Scene:
         rdesc = "slot %s/%s.%s" % (bn, mname, role)
         cur = next((k for k, ps in self.paths.items() if k[0] == bn and any(p[0] == rdesc for p in ps)), None)
         tk = self.pick_target("data_array", bn, prefer=cur)
+        if cur is not None and rng.random() < 0.12:
+            tk = cur                        # the array the link leads to already
         if tk is None:
             return
         mt = self.primary((bn, "multi_tag", mname))
@@ -1574,6 +1585,8 @@ class Scene:
         fk = rng.choice(sorted(self.featdata))
         bn, tkind, tname, n0 = fk
         tk = self.pick_target("data_array", bn, prefer=self.featdata[fk])
+        if rng.random() < 0.12:
+            tk = self.featdata[fk]          # the array the link leads to already
         if tk is None:
             return
         ft = self.primary((bn, tkind, tname)).features[n0]
@@ -1700,6 +1713,305 @@ class Scene:
             r[c] = v
         self.check_dims()
 
+    # -- handles that do not stand for a member of the block ----------------------------
+    LIST_TABLE = [("group", "g", "data_arrays", "data_array"), ("group", "h", "data_arrays", "data_array"),
+                  ("group", "g", "tags", "tag"), ("group", "g", "multi_tags", "multi_tag"),
+                  ("group", "g", "sources", "source"), ("group", "h", "sources", "source"),
+                  ("tag", "tg", "references", "data_array"), ("multi_tag", "mt", "references", "data_array"),
+                  ("tag", "tg", "sources", "source"), ("data_array", "x", "sources", "source"),
+                  ("tag", "tg2", "references", "data_array"), ("multi_tag", "mt2", "sources", "source")]
+
+    def list_desc(self, L):
+        return "%s/%s.%s.%s" % L
+
+    def members_of(self, bn, kind):
+        """the block's own entities of one kind, as the block shows them now (sources: the whole source tree)"""
+        b = self.f.blocks[bn]
+        if kind == "source":
+            return list(b.find_sources())
+        return list(getattr(b, STORE_OF[kind]))
+
+    def is_member(self, e, bn, kind):
+        return any(same_obj(e, o) for o in self.members_of(bn, kind))
+
+    def restore_list(self, L):
+        """after a wrongly accepted item: the list gets back the entries the oracle recorded for it"""
+        try:
+            cont = getattr(self.primary(L[:3]), L[3])
+            for e in list(cont):
+                del cont[e.id]
+            for k in self.lists.get(L, []):
+                cont.append(self.primary(k))
+        except Exception:
+            pass
+
+    def legal_append(self, L, tk):
+        cont = getattr(self.primary(L[:3]), L[3])
+        lst = self.lists.setdefault(L, [])
+        self.log.append(["append", self.list_desc(L), list(tk), "via its block"])
+        cont.append(self.primary(tk))
+        self.lists[L] = [k for k in lst if self.ids[k] != self.ids[tk]] + [tk]
+        self.alias(tk, self.list_desc(L),
+                   lambda f, L=L, iid=self.ids[tk]: [e for e in self.list_handles(L) if e.id == iid][0])
+
+    def sinks(self, bn, kind):
+        out = [("list", (bn, okind, oname, cname)) for okind, oname, cname, k in self.LIST_TABLE
+               if k == kind and (bn, okind, oname) in self.paths]
+        if kind == "data_array":
+            for key in self.paths:
+                if key[0] == bn and key[1] == "multi_tag":
+                    out += [("role", (bn, key[2], "positions")), ("role", (bn, key[2], "extents"))]
+            out += [("featdata", fk) for fk in self.featdata if fk[0] == bn]
+            out.append(("create_feature", (bn, "tag", "tg")))
+        return out
+
+    def owner_via(self, b, key):
+        """the owner of a link list / role link, reached through the Block object `b` the offered handle came from
+        (a program keeps ONE block object and takes everything from it) or, when b is None, navigated afresh"""
+        if b is None:
+            return self.primary(key)
+        return getattr(b, STORE_OF[key[1]])[key[2]]
+
+    def offer(self, item, kind, bn, what, many=3, b=None):
+        """`item` is a handle that does NOT stand for a member of block `bn` (`what` says why): every link list of
+        its kind, positions / extents and feature data of that block must refuse it and stay as they are"""
+        rng = self.rng
+        sinks = self.sinks(bn, kind)
+        if b is not None and rng.random() < 0.25:
+            b = None
+        for sort, where in rng.sample(sinks, min(len(sinks), many)):
+            self.evals += 1
+            if sort == "list":
+                L = where
+                cont = getattr(self.owner_via(b, L[:3]), L[3])
+                before = list(cont)
+                mode = rng.choice(["append", "append", "extend", "extend with a member"])
+                items = [item]
+                if mode == "extend with a member":
+                    free = [o for o in self.members_of(bn, kind) if not any(same_obj(o, h) for h in before)]
+                    if free:
+                        items = [rng.choice(free), item]
+                        rng.shuffle(items)
+                    else:
+                        mode = "extend"
+                self.log.append([mode, self.list_desc(L), what] + (["position %d of %d items" % (items.index(item) + 1, len(items))]
+                                                                    if len(items) > 1 else []))
+                try:
+                    if mode == "append":
+                        cont.append(item)
+                    else:
+                        cont.extend(items)
+                    accepted = True
+                except Exception:
+                    accepted = False
+                after = self.list_handles(L)
+                same = len(after) == len(before) and all(same_obj(a, b) for a, b in zip(after, before))
+                if accepted:
+                    self.fail("%s was accepted by %s of block %s (%s): the list now holds an entity that is not the "
+                              "block's member" % (what, self.list_desc(L), bn, mode), [_brief(h) for h in after],
+                              "refused, list unchanged: %r" % [_brief(h) for h in before], "append-nonmember")
+                elif not same:
+                    self.fail("the refused %s of %s changed %s" % (mode, what, self.list_desc(L)),
+                              [_brief(h) for h in after], [_brief(h) for h in before], "append-refused-changed")
+                if accepted or not same:
+                    self.restore_list(L)
+            elif sort == "role":
+                _, mname, role = where
+                mt = self.owner_via(b, (bn, "multi_tag", mname))
+                before = getattr(mt, role)
+                self.log.append(["set " + role, bn, mname, what])
+                try:
+                    setattr(mt, role, item)
+                    accepted = True
+                except Exception:
+                    accepted = False
+                now = getattr(self.primary((bn, "multi_tag", mname)), role)
+                changed = (now is None) != (before is None) or (now is not None and not same_obj(now, before))
+                if accepted:
+                    self.fail("%s was accepted as %s of multi-tag %s/%s" % (what, role, bn, mname),
+                              None if now is None else _brief(now), "refused, link unchanged", "role-nonmember")
+                elif changed:
+                    self.fail("the refused assignment of %s changed %s of multi-tag %s/%s" % (what, role, bn, mname),
+                              None if now is None else _brief(now), None if before is None else _brief(before),
+                              "role-refused-changed")
+                if accepted or changed:
+                    try:
+                        setattr(mt, role, before)
+                    except Exception:
+                        pass
+            elif sort == "featdata":
+                fk = where
+                ft = self.owner_via(b, (fk[0], fk[1], fk[2])).features[fk[3]]
+                before = ft.data
+                self.log.append(["set feature data", fk[0], fk[2], fk[3], what])
+                try:
+                    ft.data = item
+                    accepted = True
+                except Exception:
+                    accepted = False
+                now = self.feat_getter(fk)(self.f)
+                if accepted:
+                    self.fail("%s was accepted as data of feature %d of %s/%s" % (what, fk[3], fk[0], fk[2]), _brief(now),
+                              "refused, link unchanged", "feature-nonmember")
+                elif not same_obj(now, before):
+                    self.fail("the refused assignment of %s changed the data of feature %d of %s/%s"
+                              % (what, fk[3], fk[0], fk[2]), _brief(now), _brief(before), "feature-refused-changed")
+                if accepted or not same_obj(now, before):
+                    try:
+                        ft.data = self.primary(self.featdata[fk])
+                    except Exception:
+                        pass
+            else:
+                _, tkind, tname = where
+                tg = self.owner_via(b, (bn, tkind, tname))
+                n0 = len(tg.features)
+                self.log.append(["create_feature", bn, tname, what])
+                try:
+                    tg.create_feature(item, rng.choice(["tagged", "untagged", "indexed"]))
+                    accepted = True
+                except Exception:
+                    accepted = False
+                n1 = len(self.primary((bn, tkind, tname)).features)
+                if accepted:
+                    self.fail("%s was accepted as data of a new feature of %s/%s" % (what, bn, tname), "accepted", "refused",
+                              "feature-nonmember")
+                    try:
+                        del self.primary((bn, tkind, tname)).features[n0]
+                    except Exception:
+                        pass
+                elif n1 != n0:
+                    self.fail("the refused create_feature with %s changed the feature list" % what, n1, n0,
+                              "feature-refused-changed")
+
+    def make_scratch(self, b, kind, name):
+        rng = self.rng
+        if kind == "data_array":
+            return b.create_data_array(name, "scratch", data=[rng.randrange(100) / 4.0 for _ in range(3)])
+        if kind == "tag":
+            return b.create_tag(name, "scratch", [0.0])
+        if kind == "multi_tag":
+            return b.create_multi_tag(name, "scratch", positions=b.data_arrays["pos"])
+        return b.create_source(name, "scratch")
+
+    def do_stale(self):
+        """a handle kept across the deletion of its entity (and, sometimes, the creation of another entity under the
+        same name): it stands for no member of the block any more"""
+        rng = self.rng
+        bn = rng.choice(self.bnames)
+        b = self.f.blocks[bn]
+        kind = rng.choice(["data_array", "data_array", "data_array", "tag", "multi_tag", "source"])
+        self.nscratch += 1
+        name = "scratch%d" % self.nscratch
+        store = "sources" if kind == "source" else STORE_OF[kind]
+        made = self.make_scratch(b, kind, name)
+        route = rng.choice(["the handle create_* returned", "a handle fetched from the block", "a handle fetched from a link list"])
+        handle = made
+        if route == "a handle fetched from the block":
+            handle = getattr(b, store)[name]
+        elif route == "a handle fetched from a link list":
+            lists = [s[1] for s in self.sinks(bn, kind) if s[0] == "list"]
+            if lists:
+                L = rng.choice(lists)
+                cont = getattr(self.owner_via(b, L[:3]), L[3])
+                cont.append(made)            # (the deletion below takes the entry out of the list again)
+                handle = cont[made.id]
+                route += " (%s)" % self.list_desc(L)
+        self.log.append(["create %s %r in block %s, keep %s" % (kind, name, bn, route)])
+        how = rng.choice(["name", "handle"])
+        if how == "name":
+            del getattr(b, store)[name]
+        else:
+            del getattr(b, store)[made]
+        what = "the kept handle of the deleted %s %r" % (kind, name)
+        again = rng.random() < 0.5
+        if again:
+            self.make_scratch(b, kind, name)
+            what += " (another %s was created under that name since)" % kind
+        self.log.append(["delete %s %r from block %s by %s" % (kind, name, bn, how)] + (["create another one under that name"] if again else []))
+        if self.is_member(handle, bn, kind):
+            return                          # (cannot happen: the entity was deleted)
+        self.offer(handle, kind, bn, what, b=b)
+        if again:
+            del getattr(b, store)[name]
+            self.log.append(["delete the second %r" % name])
+        self.check_lists("after offering a stale handle")
+
+    def do_stray(self):
+        """entities that live only inside a copied tag / multi-tag: the HDF5 copy duplicates what the tag links to, so
+        the copy's references / positions / extents / sources / feature data are entities with the name and id of a
+        member of a block, but they are not the block's members"""
+        rng = self.rng
+        bn = rng.choice(self.bnames)
+        src_bn = bn if rng.random() < 0.7 else rng.choice(self.bnames)
+        tkind, tname = rng.choice([("tag", "tg"), ("tag", "tg"), ("multi_tag", "mt")])
+        if (src_bn, tkind, tname) not in self.paths:
+            return
+        # the original refers to something
+        for cname, kind in (("references", "data_array"), ("sources", "source")):
+            L = (src_bn, tkind, tname, cname)
+            if not self.lists.get(L) and rng.random() < 0.7:
+                cands = [k for k in self.paths if k[0] == src_bn and k[1] == kind]
+                if cands:
+                    self.legal_append(L, rng.choice(cands))
+        b = self.f.blocks[bn]
+        self.nscratch += 1
+        cname_ = "copy%d" % self.nscratch
+        src = self.primary((src_bn, tkind, tname))
+        self.log.append(["create_%s(name=%r, copy_from=%s/%s) in block %s" % (tkind, cname_, src_bn, tname, bn)])
+        if tkind == "tag":
+            c = b.create_tag(name=cname_, copy_from=src)
+        else:
+            c = b.create_multi_tag(name=cname_, copy_from=src)
+        strays = []
+        for e in c.references:
+            strays.append(("data_array", e, "%s.references[%r]" % (cname_, e.name)))
+        for e in c.sources:
+            strays.append(("source", e, "%s.sources[%r]" % (cname_, e.name)))
+        for i, ft in enumerate(c.features):
+            try:
+                d = ft.data
+            except Exception:
+                continue
+            if isinstance(d, nixio.DataArray):
+                strays.append(("data_array", d, "%s.features[%d].data" % (cname_, i)))
+        if tkind == "multi_tag":
+            for role in ("positions", "extents"):
+                try:
+                    r = getattr(c, role)
+                except Exception:
+                    r = None
+                if r is not None:
+                    strays.append(("data_array", r, "%s.%s" % (cname_, role)))
+        rng.shuffle(strays)
+        for kind, e, desc in strays[:3]:
+            if self.is_member(e, bn, kind):
+                continue                    # (the copy refers to the block's own entity: nothing to refuse)
+            self.offer(e, kind, bn, "%s %r reached as %s (an entity inside the copied %s, not a member of block %s)"
+                       % (kind, e.name, desc, tkind, bn), many=2, b=b)
+        del getattr(b, STORE_OF[tkind])[cname_]
+        self.log.append(["delete %r again" % cname_])
+        self.check_lists("after offering entities from inside a copied tag")
+
+    def do_deleted_block(self):
+        """handles of entities whose whole block was deleted, offered to the lists of a living block"""
+        rng = self.rng
+        bn = rng.choice(self.bnames)
+        self.nscratch += 1
+        nb = self.f.create_block("scratchblock%d" % self.nscratch, "t")
+        kind = rng.choice(["data_array", "data_array", "tag", "source"])
+        name = rng.choice(["x", "tg", "s", "pos", "lonely"])
+        if kind == "multi_tag" or kind == "tag":
+            name = "tg"
+        elif kind == "source":
+            name = rng.choice(["s", "lonely"])
+        elif name in ("tg", "s"):
+            name = "x"
+        h = self.make_scratch(nb, kind, name)
+        self.log.append(["create block %r with %s %r, keep the handle, delete the block" % (nb.name, kind, name)])
+        del self.f.blocks[nb.name]
+        self.offer(h, kind, bn, "the kept handle of %s %r of a deleted block" % (kind, name))
+        self.check_lists("after offering a handle from a deleted block")
+
     # -- dimensions --------------------------------------------------------------------
     def dims_setup(self):
         self.dimrec = {}          # (block, array, i) -> {"kind", "ticks"/"labels"/"link": (target key, index) / "frame": (block, column)}
@@ -1806,8 +2118,15 @@ class Scene:
             ticks = [rng.randrange(-8, 8) / 2.0 for _ in range(rng.randrange(1, 4))]
             if rng.random() < 0.75:
                 ticks.sort()
+            note = ""
+            if ("link" in rec or "frame" in rec) and rng.random() < 0.5:
+                # "freezing": the explicit ticks are exactly the values the link yields at this moment - an
+                # assignment of the value the getter returns has its full effect (the link is replaced)
+                cur = self.current_ticks(dim, rec)
+                if cur is not None:
+                    ticks, note = cur, " (= the values the linked dimension reports now)"
             legal = all(b >= a for a, b in zip(ticks, ticks[1:]))
-            self.log.append(["set ticks", list(dk), ticks, "via " + adesc])
+            self.log.append(["set ticks" + note, list(dk), ticks, "via " + adesc])
             self.evals += 1
             try:
                 dim.ticks = ticks
@@ -1827,7 +2146,7 @@ class Scene:
         elif "frame" in rec and rec["kind"] == "range":
             self.frame_unit_step(dk, rec, dim)
         elif "link" in rec and rec["kind"] == "range":
-            val = rng.choice(["mV", "s", None])
+            val = rng.choice(["mV", "s", None, self.primary(rec["link"][0]).unit])
             self.log.append(["set unit through the dimension", list(dk), val])
             dim.unit = val
             tkey = rec["link"][0]
@@ -1836,6 +2155,37 @@ class Scene:
             if got != val:
                 self.fail("unit set through a linked dimension is not the array's unit", got, val, "dimlink-unit")
         self.check_dims()
+
+    def current_ticks(self, dim, rec):
+        """the ticks a linked range dimension reports right now, as plain floats; when they do not ascend (explicit
+        ticks have to) the linked array / frame column is first given ascending content through its owner"""
+        def read():
+            try:
+                return [float(v) for v in dim.ticks]
+            except Exception:
+                return None
+        cur = read()
+        if cur is None:
+            return None
+        if any(b < a for a, b in zip(cur, cur[1:])):
+            if "link" in rec:
+                tkey = rec["link"][0]
+                t = self.primary(tkey)
+                data = np.sort(np.array(t[:]).reshape(-1)).reshape(t.shape)   # every axis vector of it ascends
+                self.log.append(["write data", list(tkey), [float(v) for v in data.reshape(-1)], "via its block"])
+                t.write_direct(data)
+            else:
+                bn, c = rec["frame"]
+                fr_ = self.frames[bn]
+                col = sorted(float(r[c]) for r in fr_["rows"])
+                self.log.append(["write_column", bn, "df", c, col])
+                self.f.blocks[bn].data_frames["df"].write_column(col, index=c)
+                for r, v in zip(fr_["rows"], col):
+                    r[c] = v
+            cur = read()
+            if cur is None or any(b < a for a, b in zip(cur, cur[1:])):
+                return None
+        return cur
 
     def check_frame_units(self, bn, why):
         """`DataFrame.units` of the block's frame against the oracle's record (None: the frame has no units)"""
@@ -2285,7 +2635,8 @@ def _scene_run(ctx, rng, steps, tag):
         sc.refused_link_keeps_ticks()
         acts = [(sc.do_append, 0.26), (sc.do_role, 0.1), (sc.do_feature, 0.07), (sc.do_metadata, 0.07),
                 (sc.do_mutate, 0.16), (sc.do_write, 0.1), (sc.do_dim, 0.22), (sc.reopen, 0.04),
-                (sc.do_calib, 0.05), (sc.do_feature_data, 0.06), (sc.do_frame_write, 0.03), (sc.do_frame_unit, 0.06)]
+                (sc.do_calib, 0.05), (sc.do_feature_data, 0.06), (sc.do_frame_write, 0.03), (sc.do_frame_unit, 0.06),
+                (sc.do_stale, 0.05), (sc.do_stray, 0.04), (sc.do_deleted_block, 0.015)]
         tot = sum(w for _, w in acts)
         for _ in range(steps):
             r = rng.random() * tot
